@@ -214,7 +214,30 @@ def _entity_list_writers(qual: str, fn: ast.AST, rel: str, out_list: list, out_s
                         out_spawn.append((qual, 'assign', rel, n.lineno))
 
 
+def _remove_ent_guards(fn: ast.FunctionDef) -> tuple[bool, bool]:
+    """VMF.remove_ent: is every index removal preceded (at the top level of the function) by an early `return` taken
+    when the item is the worldspawn / when the item is still in the entity list (it was added more than once)?"""
+    if len(fn.args.args) != 2:
+        raise TranslateError(f'VMF.remove_ent: unexpected parameters')
+    item = fn.args.args[1].arg
+    spawn_guard = listed_guard = False
+    for st in fn.body:
+        if any(isinstance(n, ast.Call) and isinstance(n.func, ast.Name) and n.func.id == '_remove_copyset' for n in ast.walk(st)):
+            break
+        if isinstance(st, ast.If) and len(st.body) == 1 and isinstance(st.body[0], ast.Return) and not st.orelse:
+            tests = st.test.values if isinstance(st.test, ast.BoolOp) and isinstance(st.test.op, ast.Or) else [st.test]
+            for t in tests:
+                if isinstance(t, ast.Compare) and len(t.ops) == 1 and isinstance(t.left, ast.Name) and t.left.id == item:
+                    rhs = t.comparators[0]
+                    if isinstance(t.ops[0], ast.Is) and _is_attr(rhs, 'spawn'):
+                        spawn_guard = True
+                    if isinstance(t.ops[0], ast.In) and _is_attr(rhs, 'entities'):
+                        listed_guard = True
+    return spawn_guard, listed_guard
+
+
 def translate() -> tuple[str, dict]:
+    remove_guards: tuple[bool, bool] | None = None
     key_escapes: list[tuple[str, str, str, int]] = []
     key_sources: list[tuple] = []      # func, index, is_add, source, entity expression, branch
     ent_list_writers: list[tuple[str, str, str, int]] = []
@@ -235,6 +258,8 @@ def translate() -> tuple[str, dict]:
         for qual, cls, fn in _functions(tree):
             if rel == 'vmf.py' and qual in ('VMF.search', 'Entity.make_unique', 'CopySet.__iter__', '_remove_copyset'):
                 digests[qual] = ast_digest(fn)
+            if rel == 'vmf.py' and qual == 'VMF.remove_ent':
+                remove_guards = _remove_ent_guards(fn)
             _key_dict_escapes(qual, fn, rel, key_escapes)
             _entity_list_writers(qual, fn, rel, ent_list_writers, spawn_writers)
             for node in ast.walk(fn):
@@ -310,6 +335,9 @@ def translate() -> tuple[str, dict]:
         'Definition entity_list_writers : list (string * string) := [',
         ';\n'.join(f'  ("{f}", "{h}")' for f, h in sorted({(f, h) for f, h, _, _ in ent_list_writers})),
         '].',
+        '(* VMF.remove_ent returns before touching the indexes when the item is the worldspawn / is still listed *)',
+        f'Definition remove_ent_skips_worldspawn : bool := {"true" if remove_guards[0] else "false"}.',
+        f'Definition remove_ent_skips_still_listed : bool := {"true" if remove_guards[1] else "false"}.',
         'Definition spawn_writers : list (string * string) := [',
         ';\n'.join(f'  ("{f}", "{h}")' for f, h in sorted({(f, h) for f, h, _, _ in spawn_writers})),
         '].',
@@ -326,6 +354,8 @@ def translate() -> tuple[str, dict]:
         '].',
         '',
     ]
+    if remove_guards is None:
+        raise TranslateError('VMF.remove_ent not found in vmf.py')
     if not ent_list_writers or not spawn_writers:
         raise TranslateError('no VMF.entities writer / VMF.spawn assignment found: vmf.py not recognised')
     side = {'key_writers': [list(k) for k in key_writers], 'index_sites': [list(s) for s in index_sites],
